@@ -30,7 +30,10 @@ import (
 	"github.com/dappledger/AnnChain/chain/app/evm"
 	"github.com/dappledger/AnnChain/chain/core"
 	rtypes "github.com/dappledger/AnnChain/chain/types"
+	"github.com/dappledger/AnnChain/eth/accounts/abi"
 	"github.com/dappledger/AnnChain/eth/common"
+	ecore "github.com/dappledger/AnnChain/eth/core"
+	"github.com/dappledger/AnnChain/eth/core/vm"
 	etypes "github.com/dappledger/AnnChain/eth/core/types"
 	ecrypto "github.com/dappledger/AnnChain/eth/crypto"
 	"github.com/dappledger/AnnChain/eth/rlp"
@@ -95,6 +98,73 @@ func nodeConf(dir string, port int) *viper.Viper {
 	return conf
 }
 
+// valchange scenario: requests are submitted while the committed height is <= valchangeUntil
+// (the last one lands in the block of the target height or the one after it)
+const valchangeUntil = 3
+
+func valchangePower(nonce uint64) int64 { return 100 + int64(nonce) }
+
+var adminABI = func() abi.ABI {
+	a, err := abi.JSON(strings.NewReader(ecore.AdminABI))
+	if err != nil {
+		panic(err)
+	}
+	return a
+}()
+
+// adminTx builds what cmd/client builds for "update_node": a transaction of account k to the
+// admin contract carrying the request signed by the validator.
+func adminTx(pv *gtypes.PrivValidator, k *ecdsa.PrivateKey, nonce uint64, power int64) []byte {
+	pub := pv.GetPubKey().Bytes()
+	if len(pub) > 32 {
+		pub = pub[len(pub)-32:]
+	}
+	attr := gtypes.ValidatorAttr{PubKey: pub, Power: power, Cmd: gtypes.ValidatorCmdUpdateNode, Nonce: nonce, Addr: ecrypto.PubkeyToAddress(k.PublicKey).Bytes()}
+	msg, _ := json.Marshal(&attr)
+	sig := pv.PrivKey.Sign(msg).Bytes()
+	if len(sig) > 64 {
+		sig = sig[len(sig)-64:]
+	}
+	cmd := gtypes.AdminOPCmd{CmdType: gtypes.AdminOpChangeValidator, Msg: msg, Time: time.Unix(1600000000, 0).UTC(), SInfos: []gtypes.SigInfo{{PubKey: pub, Signature: sig}}}
+	js, _ := json.Marshal(&cmd)
+	data, err := adminABI.Pack(ecore.AdminMethod, gtypes.TagAdminOPTx(js))
+	if err != nil {
+		panic(err)
+	}
+	tx := etypes.NewTransaction(nonce, ecore.AdminTo, big.NewInt(0), 50000000, big.NewInt(0), data)
+	signed, err := etypes.SignTx(tx, etypes.HomesteadSigner{}, k)
+	if err != nil {
+		panic(err)
+	}
+	raw, _ := rlp.EncodeToBytes(signed)
+	return raw
+}
+
+// adminRequests lists the powers requested by the administrative transactions of a block.
+func adminRequests(blk *gtypes.Block) []int64 {
+	var out []int64
+	for _, raw := range blk.Data.Txs {
+		t := new(etypes.Transaction)
+		if rlp.DecodeBytes(raw, t) != nil || t.To() == nil || *t.To() != ecore.AdminTo || len(t.Data()) < 4 {
+			continue
+		}
+		var payload []byte
+		if err := adminABI.Methods[ecore.AdminMethod].Inputs.Unpack(&payload, t.Data()[4:]); err != nil {
+			continue
+		}
+		var cmd gtypes.AdminOPCmd
+		if json.Unmarshal(gtypes.UnwrapTx(payload), &cmd) != nil {
+			continue
+		}
+		var attr gtypes.ValidatorAttr
+		if json.Unmarshal(cmd.Msg, &attr) != nil {
+			continue
+		}
+		out = append(out, attr.Power)
+	}
+	return out
+}
+
 func say(f string, a ...any) {
 	fmt.Fprintf(os.Stdout, "C06 "+f+"\n", a...)
 }
@@ -141,6 +211,16 @@ func runNode(dir string) {
 			res := app.Query(append([]byte{byte(rtypes.QueryType_Nonce)}, addr[:]...))
 			var nonce uint64
 			if err := rlp.DecodeBytes(res.Data, &nonce); err != nil {
+				continue
+			}
+			if kind == "valchange" && ai == 0 {
+				// one administrative request per height up to the target height: the node's only
+				// validator (which signs the request: +2/3) changes its own voting power; every
+				// request names another power, so the power in force tells which request it was
+				if height <= valchangeUntil {
+					raw := adminTx(node.PrivValidator(), k, nonce, valchangePower(nonce))
+					node.Angine.BroadcastTx(raw)
+				}
 				continue
 			}
 			for j := uint64(0); j < 2; j++ {
@@ -262,9 +342,16 @@ func inspect(dir string) {
 			blocks = append(blocks, map[string]any{"height": i, "error": fmt.Sprint(err)})
 			continue
 		}
-		blocks = append(blocks, map[string]any{"height": i, "hash": hex.EncodeToString(meta.Hash), "app_hash": hex.EncodeToString(b.AppHash), "receipts_hash": hex.EncodeToString(b.ReceiptsHash), "ntx": len(b.Data.Txs), "last_block": hex.EncodeToString(b.LastBlockID.Hash)})
+		blocks = append(blocks, map[string]any{"height": i, "hash": hex.EncodeToString(meta.Hash), "app_hash": hex.EncodeToString(b.AppHash), "receipts_hash": hex.EncodeToString(b.ReceiptsHash), "ntx": len(b.Data.Txs), "last_block": hex.EncodeToString(b.LastBlockID.Hash), "admin": adminRequests(b), "validators_hash": hex.EncodeToString(b.ValidatorsHash)})
 	}
 	rep["blocks"] = blocks
+	vh, vs := node.Angine.GetValidators()
+	powers := []int64{}
+	for _, v := range vs.Validators {
+		powers = append(powers, v.VotingPower)
+	}
+	rep["validators_height"] = vh
+	rep["validator_powers"] = powers
 	bz, _ := json.Marshal(rep)
 	say("REPORT %s", bz)
 	os.Exit(0)
@@ -291,6 +378,9 @@ func reexecChain(dir string) {
 		say("FATAL reexec start %v", err)
 		os.Exit(3)
 	}
+	// administrative requests of the valchange scenario are valid by construction (signed by the
+	// only validator, right nonce): the node's plugin accepts them, so the precompile succeeds
+	vm.DefaultAdminContract.SetCallback(func(*vm.AdminDBApp, []byte) error { return nil })
 	// the recovered node's own application, opened on the copied databases
 	rconf := viper.New()
 	rconf.Set("db_dir", filepath.Join(dir, "data"))
@@ -663,6 +753,39 @@ func runCase(base string, c Case, x *h.Ctx) {
 			}
 		}
 	}
+	if c.Kind == "valchange" {
+		// the validator set in force must be the one the last administrative request of the chain
+		// asked for: a change that was lost in the crash, or applied from a stale copy, shows here
+		var lastH, lastP int64 = 0, -1
+		requests := 0
+		for hgt := int64(1); hgt <= store; hgt++ {
+			if m := byH[hgt]; m != nil && m["admin"] != nil {
+				for _, p := range m["admin"].([]any) {
+					lastH, lastP = hgt, int64(p.(float64))
+					requests++
+				}
+			}
+		}
+		vh := int64(rep["validators_height"].(float64))
+		var power int64 = -1
+		if ps, ok := rep["validator_powers"].([]any); ok && len(ps) == 1 {
+			power = int64(ps[0].(float64))
+		}
+		x.Labelf("valchange:requests-in-chain:%d", requests)
+		if requests > 0 {
+			if m := byH[c.Target]; m != nil {
+				if a, ok := m["admin"].([]any); ok && len(a) > 0 {
+					x.Label("valchange:target-block-carries-a-validator-change")
+				}
+			}
+			x.Labelf("valchange:state-height-minus-last-request-block:%d", vh-lastH)
+			if vh >= lastH && power != lastP {
+				if x.Fail("validator-change-not-in-force-after-recovery", "block %d carries the last administrative request (validator power %d); after recovery the node's state at height %d has validator power %d (crash site %s, k=%d)", lastH, lastP, vh, power, site, c.K) {
+					return
+				}
+			}
+		}
+	}
 	x.Labelf("kind:%s", c.Kind)
 	if before[c.Target] != "" {
 		x.Label("target-block-event-seen-before-crash")
@@ -764,7 +887,7 @@ func TestCrashPoints(t *testing.T) {
 	}
 	seed, _ := strconv.Atoi(os.Getenv("VERIF_SEED"))
 	thorough := h.Tier() == "thorough"
-	kinds := []string{"evm", "kv", "empty"}
+	kinds := []string{"evm", "kv", "empty", "valchange"}
 	idx := 0
 	for ki, kind := range kinds {
 		c0 := Case{Kind: kind, Target: 3}
